@@ -545,7 +545,8 @@ class ApplyConcatApply(Expr):
                 *self.aggregate_args,
             )
 
-            if self.split_out is not True and self.split_out < result.npartitions:
+            if self.split_out is not True and self.split_out != result.npartitions:
+                # fewer or more partitions than the reported divisions promise
                 from dask.dataframe.dask_expr import Repartition
 
                 return Repartition(result, new_partitions=self.split_out)
